@@ -693,7 +693,12 @@ Qed.
 
 (* ------------------------------------------------------------------ 4. whole sheets *)
 Lemma sheet_fuel_enough rows : length rows - 0 < sheet_fuel rows.
-Proof. unfold sheet_fuel. nia. Qed.
+Proof.
+  unfold sheet_fuel. set (n := length rows).
+  assert (H : S n <= S (S n) * S n).
+  { apply Nat.le_trans with (1 * S n); [lia|]. apply Nat.mul_le_mono_r. lia. }
+  set (p := S (S n) * S n) in *. lia.
+Qed.
 
 (* the parser at the end of the sheet, in the root block *)
 Lemma root_end pol scope emp tol rows c lg :
